@@ -51,8 +51,8 @@ package measure
 //@   requires len(bi.versions) == len(bi.timestamps) && len(b.versions) == len(b.timestamps)
 //@   requires 0 <= b.idx && bi.idx <= b.idx && offset <= len(b.timestamps)
 //@   requires separate: !sameobj(bi.timestamps, b.timestamps) && !sameobj(bi.versions, b.versions) && !sameobj(bi.timestamps, b.versions) && !sameobj(bi.versions, b.timestamps) && !sameobj(bi.timestamps, bi.versions)
-//@   modifies bi.timestamps
-//@   modifies bi.versions
+//@   modifies hdr(bi.timestamps)
+//@   modifies hdr(bi.versions)
 //@   modifies bi.timestamps[len(bi.timestamps):cap(bi.timestamps)]
 //@   modifies bi.versions[len(bi.versions):cap(bi.versions)]
 //@   modifies bi.tagFamilies
@@ -68,8 +68,8 @@ package measure
 //@   requires len(bi.versions) == len(bi.timestamps) && len(b.versions) == len(b.timestamps)
 //@   requires 0 <= b.idx && bi.idx <= b.idx
 //@   requires separate: !sameobj(bi.timestamps, b.timestamps) && !sameobj(bi.versions, b.versions) && !sameobj(bi.timestamps, b.versions) && !sameobj(bi.versions, b.timestamps) && !sameobj(bi.timestamps, bi.versions)
-//@   modifies bi.timestamps
-//@   modifies bi.versions
+//@   modifies hdr(bi.timestamps)
+//@   modifies hdr(bi.versions)
 //@   modifies bi.timestamps[len(bi.timestamps):cap(bi.timestamps)]
 //@   modifies bi.versions[len(bi.versions):cap(bi.versions)]
 //@   modifies bi.tagFamilies
